@@ -8,7 +8,7 @@ import refproto as rp
 import simnet
 from refserver import RefServer
 
-EXTRA_PROPS = ['C10Wire']
+EXTRA_PROPS = ['C10Wire', 'Session']
 
 RULE = ("server login scripts over {encrypt?, compress(t in {0,1,64,256,2^31-1})?, plugin-request*, "
         "success | disconnect(msg)} in every admissible order (plugin requests interleaved anywhere), "
@@ -44,6 +44,7 @@ def run(ctx):
     ctx.extra['versions'] = versions
     lines, impl, hash_lines, hash_impl = [], [], [], []
     wire_lines, wire_impl = [], []
+    sess_lines, sess_impl = [], []
     for trial in range(ctx.scale(140, 1600)):
         v = versions[trial % len(versions)]
         cx = C.ConnectionContext(protocol_version=v)
@@ -64,6 +65,15 @@ def run(ctx):
                 core.insert(rng.randrange(len(core) + 1),
                             ('plugin', rng.randrange(0, 300), rng.choice(['ch', 'mod:x']),
                              bytes(rng.randrange(256) for _ in range(rng.choice([0, 3])))))
+        # a plugin request whose packet is EXACTLY as long as the announced threshold (vanilla deflates it)
+        thr_at = next((i for i, s_ in enumerate(core) if s_[0] == 'compress' and s_[1] in (64, 256)), None)
+        if thr_at is not None and rng.random() < 0.6:
+            for i in range(thr_at + 1, len(core)):
+                if core[i][0] == 'plugin':
+                    fixed = len(rc.varint(4) + rc.varint(core[i][1]) + rc.string(core[i][2]))
+                    core[i] = core[i][:3] + (bytes(rng.randrange(256) for _ in range(core[thr_at][1] - fixed)),)
+                    ctx.count('plugin-at-threshold')
+                    break
         if rng.random() < 0.65:
             core.append(('success',))
             tail = [('keepalive', 7)] if rng.random() < 0.5 else []
@@ -164,6 +174,20 @@ def run(ctx):
         wire_impl.append((raw_sent, sum(1 for f in srv.frames if f[0] == 'handshake') +
                           sum(1 for f in srv.frames[:2] if f[0] == 'login' and f[1] == ids['start']),
                           core[-1][0] == 'success'))
+        # the WHOLE client stream of the session (Model/SessionWire.lean, Props/Session.lean): first frames,
+        # login outbox, play replies under the cipher context and threshold carried over from login
+        if core[-1][0] == 'success' and v in rp.RELEASES:
+            newer = rp.layout('position_look_cb', v) is not None and len(rp.layout('position_look_cb', v)) >= 7
+            sess_lines.append('session.run hs=%d:%s:1:%d:%s login=%d:%d:%d:%s play=ka=%d:%d:%s/pos=%d:%d:%s:%s/disc=%d capw=300 capr=50 L %s P %s' % (
+                v, b'h'.hex(), ids['start'], (b'Prof' if token else b'u').hex(),
+                ids['encresp'], ids.get('plugresp', 2), token, hh(sec_for_model),
+                rp.packet_id('keep_alive_cb', v), rp.packet_id('keep_alive_sb', v),
+                'L' if rp.layout('keep_alive_cb', v)[0][1] == 'i64' else 'V',
+                rp.packet_id('position_look_cb', v),
+                rp.packet_id('teleport_confirm', v) if newer else rp.packet_id('position_look_sb', v),
+                'T' if newer else 'E', 'D' if len(rp.layout('position_look_cb', v)) >= 8 else '-',
+                rp.packet_id('disconnect_play', v), ' '.join(evs), 'ka:7' if tail else ''))
+            sess_impl.append((raw_sent, any(s_[0] == 'encrypt' for s_ in core)))
         err = 'none'
         if excs:
             e = excs[-1]
@@ -421,6 +445,35 @@ def run(ctx):
         n_wire += 1
         if not ok:
             ctx.disagree('login wire bytes', line[:260], want[:300], got[:300])
+    n_sess = n_sess_skip = 0
+    for line, mo, (raw, has_enc) in zip(sess_lines, ctx.driver.ask(sess_lines), sess_impl):
+        if mo == 'skip:deflate':
+            n_sess_skip += 1
+            continue
+        ctx.case(('session-bytes', line))
+        n_sess += 1
+        try:
+            f = dict(x.split('=', 1) for x in mo.split()[1:])
+            if not mo.startswith('ok ') or f['srv'] != '1':
+                raise ValueError(mo[:120])
+            mw, plain_n = bytes.fromhex(f['cli']), int(f['plain'])
+            mframes, _ = split_frames(mw[:plain_n])
+            iframes, p = [], 0
+            for _ in mframes:
+                n, q = rc.read_varint(raw, p)
+                iframes.append(raw[p:q + n])
+                p = q + n
+            cmp_m = mframes[:-1] if has_enc else mframes
+            cmp_i = iframes[:-1] if has_enc else iframes
+            ok = cmp_m == cmp_i and raw[p:] == mw[plain_n:]
+            want = 'frames=%s rest=%s' % ([x.hex()[:30] for x in cmp_m], mw[plain_n:].hex()[:120])
+            got = 'frames=%s rest=%s' % ([x.hex()[:30] for x in cmp_i], raw[p:].hex()[:120])
+        except Exception as e:
+            ok, want, got = False, mo[:200], 'unparsable: %r' % (e,)
+        if not ok:
+            ctx.disagree('whole-session client bytes', line[:300], want[:300], got[:300])
+    ctx.extra['session_streams_compared'] = n_sess
+    ctx.extra['session_streams_skipped_deflate'] = n_sess_skip
     ctx.extra['wire_runs_compared'] = n_wire
     ctx.extra['wire_runs_skipped_deflate'] = n_skip
     # C17 link: the string really passed to AuthenticationToken.join equals the Lean mcHash
